@@ -2252,6 +2252,8 @@ def _b_reversed(interp, args, kwargs, node):
 def _b_vars(interp, args, kwargs, node):
     if len(args) == 1 and isinstance(args[0], Rec) and isinstance(args[0].attrs.get("__dict__"), dict):
         return args[0].attrs["__dict__"]
+    if len(args) == 1 and isinstance(args[0], Rec) and "__dict__" not in args[0].attrs and "__getattr__" not in args[0].methods and "__setattr__" not in args[0].methods:
+        return args[0].attrs  # a plain object record: its instance dictionary is its attribute table (a write through vars() is an attribute write)
     raise Unsupported("vars() of a value without a modelled __dict__", node)
 
 
